@@ -438,7 +438,8 @@ def native_search(contract, config, budget_s=20.0, seed=0, n=400):
     # first a small exhaustive product over the leading examples, then random combinations
     import itertools
     heads = [cols[k][:12] if len(keys) > 1 else cols[k] for k in keys]
-    combos = itertools.chain(itertools.product(*heads), (tuple(rng.choice(cols[k]) for k in keys) for _ in range(200000)))
+    rnd = (tuple(rng.choice(cols[k]) for k in keys) for _ in range(400000))
+    combos = itertools.chain(itertools.product(*heads), rnd) if len(keys) <= 2 else rnd
     for vals in combos:
         if time.time() - t0 > budget_s:
             break
